@@ -647,6 +647,131 @@ pub fn exec_med(w: &mut World, op: &Op, rest: &str, env: &mut Env) {
                 env.res(Pool::I, dst);
             }
         }
+        // ---------------- human-readable medium carrying text that dashu itself would not write: radix prefixes, signs,
+        // leading zeros, underscores (the decoders go through from_str_with_radix_prefix)
+        "jtext" => {
+            let kind = op.n.rem_euclid(9);
+            let hexs = |v: &UBig| format!("{:x}", v);
+            macro_rules! jt {
+                ($T:ty, $orig:expr, $text:expr, $must_decode:expr, $must_refuse:expr, $desc:expr, $put:expr) => {{
+                    let text: String = $text;
+                    let json = format!("\"{}\"", text);
+                    env.emit_str("json", &json);
+                    match decode::<$T>(json.as_bytes(), 0, false) {
+                        Ok(v) => {
+                            if $must_refuse {
+                                note(env, "medium.roundtrip", format!("{} accepted from the malformed text {}: {}", stringify!($T), json, $desc(&v)));
+                            } else if v != *$orig {
+                                note(env, "medium.roundtrip", format!("{} text {} decoded as {} instead of {}", stringify!($T), json, $desc(&v), $desc($orig)));
+                            }
+                            env.emit_u64("decoded", 1);
+                            $put(v);
+                        }
+                        Err(_) => {
+                            if $must_decode {
+                                note(env, "medium.roundtrip", format!("{} text {} (= {}) is refused", stringify!($T), json, $desc($orig)));
+                            }
+                            env.emit_u64("decoded", 0);
+                        }
+                    }
+                }};
+            }
+            // text of a magnitude in the chosen shape; (text, must decode, must be refused)
+            let shape = |mag: &UBig, neg: bool, kind: i64| -> (String, bool, bool) {
+                let sg = if neg { "-" } else { "" };
+                match kind {
+                    0 => (format!("{}0x{}", sg, hexs(mag)), true, false),
+                    1 => (format!("{}0b{:b}", sg, mag), true, false),
+                    2 => (format!("{}0o{:o}", sg, mag), true, false),
+                    3 => (format!("{}{}", if neg { "-" } else { "+" }, mag), true, false),
+                    4 => (format!("{}000000000000000000000000000000000000000000000000000000000000000000000{}", sg, mag), true, false),
+                    5 => {
+                        // underscores between digits: either ignored or refused, never another number
+                        let d = mag.to_string();
+                        let mut t = String::new();
+                        for (i, c) in d.chars().enumerate() {
+                            if i > 0 && (d.len() - i) % 3 == 0 {
+                                t.push('_');
+                            }
+                            t.push(c);
+                        }
+                        (format!("{}{}", sg, t), false, false)
+                    }
+                    6 => (format!("{}0x{}g", sg, hexs(mag)), false, true),
+                    // a decimal digit string behind a binary prefix (when it happens to be binary it is another number: skipped)
+                    7 => {
+                        let d = (mag + UBig::from(2u8)).to_string();
+                        if d.chars().all(|c| c == '0' || c == '1') {
+                            (String::new(), false, false)
+                        } else {
+                            (format!("{}0b{}", sg, d), false, true)
+                        }
+                    }
+                    _ => (format!("{}0x", sg), false, true),
+                }
+            };
+            match pool {
+                0 => {
+                    let x = w.u[a].clone();
+                    let (t, md, mr) = shape(&x, false, kind);
+                    if t.is_empty() {
+                        return env.skip();
+                    }
+                    jt!(UBig, &x, t, md, mr, |v: &UBig| hex_ubig(v), |v| {
+                        w.u[dst] = v;
+                        env.res(Pool::U, dst)
+                    })
+                }
+                1 => {
+                    let x = w.i[a].clone();
+                    let (sgn, mag) = x.clone().into_parts();
+                    let (t, md, mr) = shape(&mag, sgn == Sign::Negative, kind);
+                    if t.is_empty() {
+                        return env.skip();
+                    }
+                    jt!(IBig, &x, t, md, mr, |v: &IBig| hex_ibig(v), |v| {
+                        w.i[dst] = v;
+                        env.res(Pool::I, dst)
+                    })
+                }
+                _ => {
+                    // rationals: prefix on the numerator, the denominator inherits it or repeats it; a different prefix is refused
+                    let x = w.r[a].clone();
+                    let (sgn, mag) = x.numerator().clone().into_parts();
+                    let den = x.denominator().clone();
+                    let sg = if sgn == Sign::Negative { "-" } else { "" };
+                    let (t, md, mr): (String, bool, bool) = match kind {
+                        0 => (format!("{}0x{}/0x{}", sg, hexs(&mag), hexs(&den)), true, false),
+                        1 => (format!("{}0x{}/{}", sg, hexs(&mag), hexs(&den)), true, false),
+                        2 => (format!("{}0o{:o}/{:o}", sg, mag, den), true, false),
+                        3 => (format!("+{}/{}", mag, den), sgn != Sign::Negative, false),
+                        4 => (format!("{}0x{}/0b{:b}", sg, hexs(&mag), den), false, !den.is_one() || true),
+                        5 => (format!("{}{}/0x{}", sg, mag, hexs(&den)), false, true),
+                        6 => (format!("{}0b{:b}/-0b{:b}", sg, mag, den), false, false),
+                        7 => (format!("{}0x{}/0x0", sg, hexs(&mag)), false, true),
+                        _ => (format!("{}{}/+{}", sg, mag, den), true, false),
+                    };
+                    if pool % 2 == 0 {
+                        // "+m/d" denotes |x|; a negative denominator flips the sign
+                        let expect = if (kind == 3 && sgn == Sign::Negative) || kind == 6 { -x.clone() } else { x.clone() };
+                        jt!(RBig, &expect, t, md, mr, |v: &RBig| text_rbig(v), |v: RBig| {
+                            if let Err(e) = canon_rbig(&v) {
+                                note(env, "medium.noncanonical", format!("RBig from JSON text: {}", e));
+                            }
+                            w.r[dst] = v;
+                            env.res(Pool::R, dst)
+                        })
+                    } else {
+                        let xr = x.clone().relax();
+                        let expect = if (kind == 3 && sgn == Sign::Negative) || kind == 6 { -xr.clone() } else { xr.clone() };
+                        jt!(Relaxed, &expect, t, md, mr, |v: &Relaxed| text_relaxed(v), |v: Relaxed| {
+                            w.x[dst] = v;
+                            env.res(Pool::X, dst)
+                        })
+                    }
+                }
+            }
+        }
         // ---------------- text medium (Display / FromStr) with faults on the characters
         "text" => {
             let kind = op.m.rem_euclid(8);
